@@ -1,3 +1,15 @@
 #!/bin/sh
-# placeholder; replaced as the framework grows
-exit 0
+# Build the whole framework from files on disk (offline): harness, translator, Coq development
+# (full .vo build through coq_makefile), extraction, OCaml model runner. Fails on any forbidden
+# vernacular in the Coq sources.
+set -e
+cd "$(dirname "$0")"
+export GOFLAGS=-mod=mod GOPROXY=off GOSUMDB=off GOTOOLCHAIN=local
+if grep -rnE '^\s*(Axiom|Parameter|Conjecture|Admitted|Admit Obligations)\b|\badmit\.|Unset Guard Checking|Unset Positivity Checking|Unset Universe Checking|bypass_check|type-in-type|impredicative-set|native_compute' \
+     --include='*.v' coq/theories | grep -v '^coq/theories/.*/validate/' ; then
+  echo "forbidden vernacular found" >&2
+  exit 1
+fi
+mkdir -p .build evidence replays
+( cd coq && coq_makefile -f _CoqProject -o Makefile >/dev/null )
+python3 py/build.py
